@@ -438,7 +438,8 @@ class PythonTypesBackend(CodeBackend):
         child_omitted_callers = data_type.get_all_omitted_callers() | {None}
         parent_omitted_callers = _get_all_ancestor_omitted_callers(data_type)
 
-        for omitted_caller in sorted(child_omitted_callers | parent_omitted_callers, key=str):
+        for omitted_caller in sorted(child_omitted_callers | parent_omitted_callers,
+                                     key=_omitted_caller_sort_key):
             is_public = omitted_caller is None
             map_name_prefix = '' if is_public else '_{}'.format(omitted_caller)
             caller_in_parent = data_type.parent_type and (is_public or omitted_caller
@@ -887,7 +888,8 @@ class PythonTypesBackend(CodeBackend):
         if len(all_omitted_callers) != 0:
             self.emit('{}._permissioned_tagmaps = {{{}}}'.format(
                 class_name, ', '.join(repr(caller) for caller in sorted(all_omitted_callers))))
-        for omitted_caller in sorted(all_omitted_callers | {None}, key=str):
+        for omitted_caller in sorted(all_omitted_callers | {None},
+                                     key=_omitted_caller_sort_key):
             is_public = omitted_caller is None
             tagmap_name = '_tagmap' if is_public else '_{}_tagmap'.format(omitted_caller)
             caller_in_parent = data_type.parent_type and (is_public or omitted_caller
@@ -1098,6 +1100,13 @@ def _get_all_ancestor_omitted_callers(data_type):
         omitted_callers |= parent_type.get_all_omitted_callers()
         parent_type = parent_type.parent_type
     return omitted_callers
+
+def _omitted_caller_sort_key(omitted_caller):
+    """
+    Orders omitted callers, and None for the public caller, by their text.
+    None comes before a caller whose name is 'None'.
+    """
+    return (str(omitted_caller), omitted_caller is not None)
 
 def generate_validator_constructor(ns, data_type):
     """
